@@ -33,14 +33,20 @@ CONSTANTS Slots,     \* object identities (model values; SYMMETRY)
           Collide,   \* TRUE: all digests collide (ID_DIGEST_SIZE = 1 in the extreme)
           CondPop,   \* TRUE: pop only the receiver itself (the code after the fix)
                      \* FALSE: pop whatever is registered under the receiver's id (pinned code)
-          Ops        \* operations enabled in this instance (to focus a bounded run)
+          Ops,       \* operations enabled in this instance (to focus a bounded run)
+          MaxBlobs,  \* payloads kept
+          ObserveKinds, \* read-only operations exercised by Observe (C10): traversals, Tree, xpath, ...
+          ForceTaken \* TRUE: deserialization forces the serialized id even when another live node holds it
+                     \* (the pinned code; TLC then finds the RegExact counterexample of DESIGN section 7)
 
-VARIABLES obj, held, reg, ret, hist
-vars == <<obj, held, reg, ret, hist>>
-view == <<obj, held, reg>>
+VARIABLES obj, held, reg, ret, hist,
+          blobs      \* serialized payloads the program still holds: sequence of [h, root] snapshots (by value)
+vars == <<obj, held, reg, ret, hist, blobs>>
+view == <<obj, held, reg, blobs>>
 
 Live == DOMAIN obj
 FreeSlots == Slots \ Live
+Core(rec) == [c |-> rec.c, p |-> rec.p, k |-> rec.k, o |-> rec.o, id |-> rec.id]
 
 ---------------------------------------------------------------------------
 (* ids *)
@@ -110,13 +116,15 @@ Create(st, r, s) ==
 St == [obj |-> obj, reg |-> reg]
 
 (* finish a step: the program holds `hd`; everything unreachable dies *)
-Finish(st, hd, r, ev) ==
+FinishB(st, hd, r, ev, bl) ==
     LET alive == ReachAll(st.obj, hd) IN
     /\ obj' = [s \in alive |-> st.obj[s]]
     /\ held' = hd
     /\ reg' = st.reg \cap alive
     /\ ret' = r
     /\ hist' = Append(hist, ev)
+    /\ blobs' = bl
+Finish(st, hd, r, ev) == FinishB(st, hd, r, ev, blobs)
 
 HasTwin(st, r) == \E t \in st.reg : st.obj[t].id[1] = BaseOf(IdKeyOf(st.obj, r))
 
@@ -247,18 +255,102 @@ Drop(o) ==
     /\ o \in held
     /\ Finish(St, held \ {o}, [op |-> "drop", res |-> o, src |-> o], [op |-> "drop", src |-> o])
 
+(* C10: every other public operation -- traversals, Tree queries, xpath search / match, pattern
+   matching, visiting, transforming (result discarded), comparison, hashing, pretty printing,
+   accessors, serialization, assignment attempts (which must raise) -- changes nothing at all.  One
+   action per kind so that each is exercised from every reachable registry state. *)
+Observe(o) ==
+    /\ o \in held
+    /\ \E kd \in ObserveKinds :
+         Finish(St, held, [op |-> "observe", res |-> o, src |-> o], [op |-> "observe", src |-> o, kind |-> kd])
+
+(* the program forgets every node at once (e.g. the payload travels to a fresh process) *)
+DropAll ==
+    /\ held # {}
+    /\ Finish(St, {}, [op |-> "dropall", res |-> NoSlot, src |-> NoSlot], [op |-> "dropall"])
+
 (* start holding a descendant (so that a parent can die while its child lives) *)
 Hold(o) ==
     /\ o \in Live \ held
     /\ Finish(St, held \cup {o}, [op |-> "hold", res |-> o, src |-> o], [op |-> "hold", src |-> o])
+
+---------------------------------------------------------------------------
+(* serialization (C04): a payload is the tree by value, ids included; the four formats are one
+   abstract payload.  Deserialization is a fold over the payload: a position whose id is in the
+   registry comes back as that registered object (its payload children are not even looked at),
+   otherwise the children are deserialized first, the node is constructed (computing its own id and
+   registering) and the serialized id is then forced onto it. *)
+Snapshot(o) == [h |-> [n \in Reach(obj, o) |-> Core(obj[n])], root |-> o]
+
+Ser(o) ==
+    /\ o \in held
+    /\ Len(blobs) < MaxBlobs
+    /\ FinishB(St, held, [op |-> "ser", res |-> o, src |-> o], [op |-> "ser", src |-> o, blob |-> Len(blobs) + 1],
+               Append(blobs, Snapshot(o)))
+
+RECURSIVE MatchesSub(_, _, _, _)
+MatchesSub(bh, n, h, t) ==     \* object t of heap h is, by value and ids, the payload subtree at n
+    /\ bh[n].c = h[t].c /\ bh[n].p = h[t].p /\ bh[n].o = h[t].o /\ bh[n].id = h[t].id
+    /\ LET kb == Kids(bh, n)
+           kh == Kids(h, t)
+       IN Len(kb) = Len(kh) /\ \A j \in 1..Len(kb) :
+             kb[j].f = kh[j].f /\ kb[j].i = kh[j].i /\ MatchesSub(bh, kb[j].n, h, kh[j].n)
+
+RECURSIVE DesOne(_, _, _), DesSeq(_, _, _), DesFields(_, _, _, _)
+DesSeq(st, bh, ss) ==
+    IF ss = <<>> THEN [st |-> st, res |-> <<>>, news |-> <<>>, clean |-> TRUE]
+    ELSE LET a == DesOne(st, bh, Head(ss))
+             b == DesSeq(a.st, bh, Tail(ss))
+         IN [st |-> b.st, res |-> <<a.res>> \o b.res, news |-> a.news \o b.news, clean |-> a.clean /\ b.clean]
+DesFields(st, bh, n, fs) ==
+    IF fs = <<>> THEN [st |-> st, k |-> <<>>, news |-> <<>>, clean |-> TRUE]
+    ELSE LET f == Head(fs)
+             v == bh[n].k[f]
+             isq == IsSeqKind(Kind[bh[n].c][f])
+             a == IF isq THEN DesSeq(st, bh, v)
+                  ELSE IF v = NoSlot THEN [st |-> st, res |-> <<>>, news |-> <<>>, clean |-> TRUE]
+                  ELSE DesSeq(st, bh, <<v>>)
+             val == IF isq THEN a.res ELSE IF v = NoSlot THEN NoSlot ELSE a.res[1]
+             b == DesFields(a.st, bh, n, Tail(fs))
+         IN [st |-> b.st, k |-> (f :> val) @@ b.k, news |-> a.news \o b.news, clean |-> a.clean /\ b.clean]
+DesOne(st, bh, n) ==
+    LET id == bh[n].id
+        hit == {t \in st.reg : st.obj[t].id = id}
+    IN IF hit # {}
+       THEN LET t == CHOOSE x \in hit : TRUE IN
+            [st |-> st, res |-> t, news |-> <<>>, clean |-> MatchesSub(bh, n, st.obj, t)]
+       ELSE LET kf == DesFields(st, bh, n, ChildFields[bh[n].c])
+                s == AFree(kf.st)
+                st1 == Create(kf.st, [c |-> bh[n].c, p |-> bh[n].p, k |-> kf.k, o |-> bh[n].o], s)
+                taken == id \in UsedIds(st1.obj, st1.reg \ {s})   \* another live node holds the serialized id
+                st2 == IF st1.obj[s].id = id \/ (taken /\ ~ForceTaken) THEN st1
+                       ELSE Register([PopId(st1, st1.obj[s].id) EXCEPT !.obj[s].id = id], s)
+            IN [st |-> st2, res |-> s, news |-> Append(kf.news, s),
+                clean |-> kf.clean /\ (st1.obj[s].id = id \/ ~taken)]
+
+Deser(b) ==
+    /\ b \in 1..Len(blobs)
+    /\ Cardinality(DOMAIN blobs[b].h) <= Cardinality(FreeSlots)
+    /\ LET d == DesOne(St, blobs[b].h, blobs[b].root) IN
+       Finish(d.st, held \cup {d.res},
+              [op |-> "deser", res |-> d.res, src |-> d.res, blob |-> b, clean |-> d.clean],
+              [op |-> "deser", blob |-> b, res |-> d.res, news |-> d.news])
+
+(* the program discards a payload *)
+Forget(b) ==
+    /\ b \in 1..Len(blobs)
+    /\ FinishB(St, held, [op |-> "forget", res |-> NoSlot, src |-> NoSlot], [op |-> "forget", blob |-> b],
+               [j \in 1..(Len(blobs) - 1) |-> IF j < b THEN blobs[j] ELSE blobs[j + 1]])
 
 Init == /\ obj = <<>>
         /\ held = {}
         /\ reg = {}
         /\ ret = [op |-> "init", res |-> NoSlot, src |-> NoSlot]
         /\ hist = <<>>
+        /\ blobs = <<>>
 
-AllOps == {"new", "replace", "replace_fails", "dcreplace", "dup", "detach", "detach_self", "drop", "hold"}
+AllOps == {"new", "replace", "replace_fails", "dcreplace", "dup", "detach", "detach_self", "drop", "hold",
+           "ser", "deser", "forget", "dropall", "observe"}
 
 Next == \/ "new" \in Ops /\ \E c \in GenClasses : New(c)
         \/ \E o \in Slots : \/ "replace" \in Ops /\ Replace(o)
@@ -269,6 +361,11 @@ Next == \/ "new" \in Ops /\ \E c \in GenClasses : New(c)
                             \/ "detach_self" \in Ops /\ DetachSelf(o)
                             \/ "drop" \in Ops /\ Drop(o)
                             \/ "hold" \in Ops /\ Hold(o)
+                            \/ "ser" \in Ops /\ Ser(o)
+                            \/ "observe" \in Ops /\ Observe(o)
+        \/ "dropall" \in Ops /\ DropAll
+        \/ \E b \in 1..MaxBlobs : \/ "deser" \in Ops /\ Deser(b)
+                                  \/ "forget" \in Ops /\ Forget(b)
 
 Spec == Init /\ [][Next]_vars
 
@@ -294,12 +391,11 @@ IdDeterministic == (ret.op \in Creating /\ ~Collide /\ ~ret.twin)
                       => obj[ret.res].id = <<IdKeyOf(obj, obj[ret.res]), 0>>
 
 (* a replace() that raises leaves the registry (and everything else) exactly as it was *)
-FailFrame == [][ret'.op = "replace_fails" => UNCHANGED <<obj, held, reg>>]_vars
+FailFrame == [][ret'.op \in {"replace_fails", "observe"} => UNCHANGED <<obj, held, reg>>]_vars
 
 ---------------------------------------------------------------------------
 (* C10: no operation changes an existing node; only registry membership (and the spec's own
    history flag det) may change, and only in detach / detach_self / replace *)
-Core(rec) == [c |-> rec.c, p |-> rec.p, k |-> rec.k, o |-> rec.o, id |-> rec.id]
 Immutable == [][\A s \in Live \cap DOMAIN obj' : Core(obj'[s]) = Core(obj[s])]_vars
 MembershipFrame ==
     [][\A s \in Live \cap DOMAIN obj' :
@@ -342,6 +438,17 @@ DcReplaceFaithful ==
           b == ret.res
       IN /\ a # b /\ obj[a].c = obj[b].c /\ b \in reg
          /\ ret.srcreg => (a \in reg /\ obj[a].id # obj[b].id)
+
+---------------------------------------------------------------------------
+(* C04: reading a payload back yields, at every position, the registered object with that id or a
+   new registered node with the same class, id, properties and origin -- provided every id found in
+   the registry during the fold belonged to a node that is the payload's (no foreign take-over). *)
+RoundTrip ==
+    ret.op = "deser" =>
+      LET bl == blobs[ret.blob] IN
+      /\ ret.clean => MatchesSub(bl.h, bl.root, obj, ret.res)
+      /\ ret.clean => Reach(obj, ret.res) \subseteq reg \cup {s \in Live : obj[s].det}
+      /\ ret.res \in held
 
 (* CKey is a faithful canonical form of CEq (ids are computed from it) *)
 CKeySound == \A a, b \in Live : (CKey(obj, a) = CKey(obj, b)) <=> CEq(obj, a, obj, b)
